@@ -116,7 +116,23 @@ def _family(op, arg):
     return None
 
 
+def _corner_cases():
+    """hand-written (corpus, filters): the same mapping inside a list in two key orders, big integers"""
+    a, b = [{"k": 1, "m": 2}], [{"m": 2, "k": 1}]
+    deep1, deep2 = [1, {"k": [1, {"z": 0, "y": 1}]}], [1, {"k": [1, {"y": 1, "z": 0}]}]
+    jobs = [[{"a": a, "b": 0}, {"d": b}], [{"a": deep1, "b": 1}, None], [{"a": [1], "b": 2}, {"d": [2]}]]
+    fs = [{"a": b}, {"a": a}, {"doc.d": a}, {"a": deep2}, {"$not": {"a": b}}, {"$or": [{"a": b}, {"b": 2}]},
+          {"a": {"$eq": b}}, {"a": {"$ne": deep2}}, {"a": {"$in": [b, [1]]}}, {"sp": {"a": b}}]
+    yield {"jobs": jobs, "filters": fs, "loc": True}
+    big = [[{"a": 2 ** 53}, None], [{"a": 2 ** 53 + 1}, None], [{"a": 2.0 ** 53}, {"d": 2 ** 63 - 1}], [{"a": 2 ** 63 - 1}, None]]
+    fb = [{"a": 2 ** 53 + 1}, {"a": 2 ** 53}, {"a": 2.0 ** 53}, {"a": 2 ** 63 - 1}, {"doc.d": 2 ** 63 - 1}, {"a": {"$eq": 2 ** 53 + 1}},
+          {"a": {"$gt": 2 ** 53}}, {"$not": {"a": 2 ** 53 + 1}}, {"a": {"$in": [2 ** 53 + 1]}}]
+    yield {"jobs": big, "filters": fb, "loc": True}
+
+
 def generate(tier, rng):
+    for c in _corner_cases():
+        yield c
     quick = tier == "quick"
     table = _atoms_table()
     reps = 24 if quick else 220
